@@ -18,6 +18,7 @@ import (
 func init() {
 	reg("C13", "enum", c13enum)
 	reg("C13", "defaultdev", c13defaultdev)
+	reg("C13", "devwriter", c13devwriter)
 }
 
 type c13cfg struct {
@@ -307,6 +308,56 @@ func c13enum(c *Ctx) {
 			}
 			// faults stop: every class must be delivered normally (no sticky state)
 			schedLen = 0
+			// ... starting with a blank line (Println without arguments): one newline byte to the destinations of the
+			// Always severity and nothing else - in particular no diagnostic, no Write failed for it
+			{
+				log.Reset()
+				panicked := ""
+				func() {
+					defer func() {
+						if e := recover(); e != nil {
+							panicked = fmt.Sprint(e)
+						}
+					}()
+					if idx%2 == 0 {
+						lg.Println()
+					} else {
+						lg.Print("")
+					}
+				}()
+				if panicked != "" {
+					c.R.Violation(idx, "returns-normally", "C13/returns-normally/h/blank-line", "a blank Println after the faults stopped panicked: "+panicked, desc)
+					return
+				}
+				got := map[string]int{}
+				for _, e := range log.Events() {
+					if e.Kind != mon.EvWrite {
+						continue
+					}
+					switch {
+					case string(e.Data) == "\n":
+						got[e.W]++
+					case bytes.Contains(e.Data, []byte(diagText)):
+						c.R.Violation(idx, "recovery", "C13/recovery/h/blank-line-diagnostic", fmt.Sprintf("a blank line issued after the faults stopped drew a diagnostic record at %s although no Write failed for it: %s", e.W, q(clip(string(e.Data), 300))), desc)
+						return
+					default:
+						c.R.Violation(idx, "foreign-write", "C13/foreign-write/h/blank-line", fmt.Sprintf("unexpected payload at %s for a blank line: %s", e.W, q(clip(string(e.Data), 200))), desc)
+						return
+					}
+				}
+				wantB := map[string]int{}
+				for _, w := range cfg.dest(slog.AlwaysLevel) {
+					wantB[fmt.Sprintf("W%d", w)]++
+				}
+				for w := 0; w < 6; w++ {
+					k := fmt.Sprintf("W%d", w)
+					if got[k] != wantB[k] {
+						c.R.Violation(idx, "recovery", "C13/recovery/h/blank-line", fmt.Sprintf("after the faults stopped a blank line reached %s %d time(s), expected %d", k, got[k], wantB[k]), desc)
+						return
+					}
+				}
+				c.R.Add("blank_lines_after_the_faults", 1)
+			}
 			for ci, sev := range c13sevs {
 				if !judge("h", ci, sev, true) {
 					return
@@ -490,6 +541,131 @@ func c13defaultdev(c *Ctx) {
 		c.R.NonTrivial("defaultdev", idx)
 		if c.R.WantSample() {
 			c.R.Sample(idx, desc, "every call returned while the device was full; normal delivery once it worked again")
+		}
+	})
+}
+
+// c13devwriter: the package's default device (GetDefaultWriter) handed to a logger as ONE of its normal writers, next
+// to a recording writer, while the process's stdout is full for real (fd 1 on /dev/full). The failing destination is
+// then the device; the record still reaches the other normal writer, at most one diagnostic goes to the logger's OWN
+// warning destination, and nothing at all reaches the process's stderr (which is no destination of this logger: the
+// builtin default logger has no part in it).
+func c13devwriter(c *Ctx) {
+	fds, err := captureFds()
+	if err != nil {
+		c.R.Violation(-1, "harness", "C13/harness", err.Error(), nil)
+		return
+	}
+	full, err := os.OpenFile("/dev/full", os.O_WRONLY, 0)
+	if err != nil {
+		c.R.Add("dev_full_not_available", 1)
+		return
+	}
+	slog.AddFlags(slog.LnoInterrupt)
+	slog.RemoveFlags(slog.Lcaller)
+	savedDefault := slog.Default()
+	log := mon.NewLog()
+	c.Each(func(idx int, r *gen.R) {
+		k := idx
+		kind := []string{"root", "child", "package-functions"}[k%3]
+		k /= 3
+		L := []slog.Level{slog.AlwaysLevel, slog.ErrorLevel, slog.InfoLevel, slog.TraceLevel}[k%4]
+		defer func() { _ = syscall.Dup2(int(fds.f1.Fd()), 1); slog.SetDefault(savedDefault) }()
+		var lgL slog.Logger = slog.New(fmt.Sprintf("dw%d", idx))
+		lg := lgL.Root()
+		if kind == "child" {
+			lg = lg.New("kid")
+		}
+		w0 := mon.New(log, "W0", mon.ShapePlain)
+		we := mon.New(log, "WE", mon.ShapePlain)
+		lg.SetWriter(w0).AddWriter(slog.GetDefaultWriter()).SetErrorWriter(we)
+		lg.SetColorMode(false)
+		lg.SetLevel(L)
+		is.SetDebugMode(false)
+		if kind == "package-functions" {
+			slog.SetDefault(lg)
+		}
+		desc := map[string]any{"logger": kind, "logger_level": L.String(), "normal_writers": "recording writer + GetDefaultWriter()", "error_writer": "recording writer", "stdout": "/dev/full"}
+		_ = syscall.Dup2(int(full.Fd()), 1)
+		for ci, sev := range []slog.Level{slog.InfoLevel, slog.ErrorLevel, slog.WarnLevel, slog.AlwaysLevel, slog.DebugLevel, slog.InfoLevel} {
+			id := fmt.Sprintf("<dw%d-%d>", idx, ci)
+			log.Reset()
+			_, m2 := fds.mark()
+			panicked := ""
+			func() {
+				defer func() {
+					if e := recover(); e != nil {
+						panicked = fmt.Sprint(e)
+					}
+				}()
+				c.R.JournalNote(fmt.Sprintf("devwriter %v sev=%v %s", desc, sev, id))
+				if kind == "package-functions" && sev == slog.InfoLevel {
+					slog.Info("rec "+id, "k", ci)
+				} else {
+					lg.LogAttrs(bg, sev, "rec "+id, "k", ci)
+				}
+			}()
+			c.R.Add("calls_with_the_full_default_device_among_the_writers", 1)
+			sig := func(clause string) string { return "C13/" + clause + "/device-as-writer/" + className(sev) }
+			if panicked != "" {
+				c.R.Violation(idx, "returns-normally", sig("returns-normally"), "the logging call panicked: "+panicked, desc)
+				return
+			}
+			adm := admit(L, sev, false, builtinTreatAs)
+			normalClass := !builtinErrorClass(sev)
+			own := map[string]int{}
+			diags := map[string]int{}
+			for _, e := range log.Events() {
+				if e.Kind != mon.EvWrite {
+					continue
+				}
+				if bytes.Contains(e.Data, []byte(diagText)) {
+					diags[e.W]++
+				} else if bytes.Contains(e.Data, []byte(id)) {
+					own[e.W]++
+				}
+			}
+			_, b2 := fds.since(0, m2)
+			wantW0, wantWE := 0, 0
+			if adm && normalClass {
+				wantW0 = 1
+			} else if adm {
+				wantWE = 1
+			}
+			if own["W0"] != wantW0 || own["WE"] != wantWE {
+				c.R.Violation(idx, "other-destinations", sig("other-destinations"), fmt.Sprintf("the recording normal writer got the record %d time(s) (expected %d), the error writer %d time(s) (expected %d); admitted %v", own["W0"], wantW0, own["WE"], wantWE, adm), desc)
+				return
+			}
+			maxDiag := 0
+			if adm && normalClass && sev != slog.WarnLevel && admit(L, slog.WarnLevel, false, builtinTreatAs) {
+				maxDiag = 1
+			}
+			if diags["WE"] > maxDiag || diags["W0"] > 0 {
+				c.R.Violation(idx, "diagnostic", sig("diagnostic"), fmt.Sprintf("diagnostics: %d at the logger's warning destination (at most %d allowed), %d at its normal writer", diags["WE"], maxDiag, diags["W0"]), desc)
+				return
+			}
+			if len(b2) > 0 {
+				c.R.Violation(idx, "diagnostic", sig("diagnostic-at-another-loggers-destination"), fmt.Sprintf("the process's stderr is no destination of this logger, yet it received %s", q(clip(string(b2), 400))), desc)
+				return
+			}
+			if diags["WE"] > 0 {
+				c.R.Add("diagnostic_records_seen", 1)
+			}
+		}
+		// the device works again
+		_ = syscall.Dup2(int(fds.f1.Fd()), 1)
+		m1, m2 := fds.mark()
+		log.Reset()
+		id := fmt.Sprintf("<dwh%d>", idx)
+		lg.LogAttrs(bg, slog.AlwaysLevel, "rec "+id)
+		b1, b2 := fds.since(m1, m2)
+		if bytes.Count(b1, []byte(id)) != 1 || len(b2) != 0 || len(log.Writes("W0")) != 1 || len(log.Writes("WE")) != 0 {
+			c.R.Violation(idx, "recovery", "C13/recovery/device-as-writer", fmt.Sprintf("after stdout works again: stdout got %q, stderr %q, the recording writers %s (expected the record once on stdout and once at the normal writer, no diagnostic)", clip(string(b1), 300), clip(string(b2), 300), clip(fmtEvents(log.Events()), 400)), desc)
+			return
+		}
+		c.R.NonTrivial("devwriter", idx)
+		if c.R.WantSample() {
+			c.R.Sample(idx, desc, "every call returned; the other normal writer got each admitted record once; at most one diagnostic at the logger's own warning destination; nothing on stderr")
 		}
 	})
 }
